@@ -86,6 +86,12 @@ type Config struct {
 	// (select {case ch<-v: default:}); returning true forces the default
 	// branch although the queue may have room (queue-full injection).
 	DropHook func(site string, ch any, v any) bool
+	// FocusMod > 0 enables site-targeted delays: a goroutine parking at a
+	// site whose hash (mixed with the seed) is 0 mod FocusMod is held back
+	// until nothing else can run (at most FocusBudget times per run). Over
+	// many seeds every yield site of the program becomes the focus.
+	FocusMod    int
+	FocusBudget int
 	// KeepLog keeps the textual event log (otherwise only its hash).
 	KeepLog bool
 	// ShuffleMaps: permute map iteration order with the seed (else canonical).
@@ -134,9 +140,12 @@ type Sched struct {
 	SelMultiReady int
 	Drops         int
 	Holds         int
+	FocusHolds    int
+	focusLeft     int
 	MapRanges     int
 	Counters      map[string]int
 	Deadlocked    bool // ended with goroutines blocked but nothing enabled and no timer
+	LiveAtEnd     []string
 	RootDone      bool
 	RootSite      string
 	StepLimit     bool
@@ -183,7 +192,7 @@ func New(cfg Config) *Sched {
 		cfg.MaxSteps = 200000
 	}
 	if cfg.Horizon == 0 {
-		cfg.Horizon = 6 * time.Hour
+		cfg.Horizon = 30 * time.Hour
 	}
 	s := &Sched{
 		cfg:      cfg,
@@ -195,6 +204,7 @@ func New(cfg Config) *Sched {
 		hash:     1469598103934665603,
 		changeAt: map[int]bool{},
 	}
+	s.focusLeft = cfg.FocusBudget
 	if cfg.Strategy == StratPCT {
 		d := cfg.PCTDepth
 		if d == 0 {
@@ -471,6 +481,21 @@ func (s *Sched) Run(root func()) {
 				// woken without time passing: a goroutine exited or parked late
 			}
 		case <-t.C:
+			// A goroutine's own timer may have fired at the very same
+			// instant as the horizon timer: look again before giving up.
+			synctest.Wait()
+			s.mu.Lock()
+			again := false
+			for _, g := range s.all {
+				if g.state == stParked || g.state == stQuiesce {
+					again = true
+				}
+			}
+			s.mu.Unlock()
+			if again {
+				s.TimeAdvances++
+				continue
+			}
 			// Idle until the horizon: nothing will ever happen again.
 			if !rootDone || live > 0 {
 				s.Deadlocked = true
@@ -482,6 +507,7 @@ func (s *Sched) Run(root func()) {
 		}
 	}
 done:
+	s.LiveAtEnd = s.Live()
 	// Tear down: release parked goroutines so they can Goexit.
 	s.abort("run finished")
 	for {
@@ -508,15 +534,34 @@ done:
 func (s *Sched) choose(enabled []*G) *G {
 	// apply holds (delay injection): held goroutines are skipped while
 	// anything else is enabled.
-	if s.cfg.DelayPermille > 0 {
+	if s.cfg.FocusMod > 0 {
+		for _, g := range enabled {
+			if g.fresh && s.focusLeft > 0 && siteHash(g.Site, s.cfg.Seed)%uint64(s.cfg.FocusMod) == 0 {
+				g.held = 4000
+				s.focusLeft--
+				s.FocusHolds++
+				g.fresh = false
+			}
+		}
+	}
+	if s.cfg.DelayPermille > 0 || s.cfg.FocusMod > 0 {
 		var free []*G
 		for _, g := range enabled {
 			// hold decisions are drawn here, by the director, in id order:
 			// goroutines may park concurrently and must not draw themselves.
 			if g.fresh {
 				g.fresh = false
-				if g.held == 0 && s.rng.IntN(1000) < s.cfg.DelayPermille {
-					g.held = 1 + s.rng.IntN(40)
+				if g.held == 0 && s.cfg.DelayPermille > 0 && s.rng.IntN(1000) < s.cfg.DelayPermille {
+					// mostly short stalls, sometimes long enough for a whole
+					// procedure (a shutdown, a kill) to complete meanwhile
+					switch s.rng.IntN(4) {
+					case 0:
+						g.held = 1 + s.rng.IntN(1500)
+					case 1:
+						g.held = 1 + s.rng.IntN(200)
+					default:
+						g.held = 1 + s.rng.IntN(40)
+					}
 					s.Holds++
 				}
 			}
@@ -808,4 +853,16 @@ func (s *Sched) noteUnordered() {
 	s.mu.Lock()
 	s.Counters["unordered_map_key"]++
 	s.mu.Unlock()
+}
+
+func siteHash(site string, seed uint64) uint64 {
+	h := seed ^ 0xcbf29ce484222325
+	for i := 0; i < len(site); i++ {
+		h ^= uint64(site[i])
+		h *= 1099511628211
+	}
+	h ^= h >> 29
+	h *= 0xbf58476d1ce4e5b9
+	h ^= h >> 32
+	return h
 }
